@@ -72,6 +72,7 @@ def variants(repo):
     p = "pandapower/contingency/contingency_parallel.py"
     V = Variant
     return [
+        Variant("parallel mask starts from all true", "pandapower/contingency/contingency_parallel.py", in_function("_update_contingency_results_parallel", lambda s: s.replace('                    where_mask = net[element]["in_service"].values\n                    if parallel_results and element == cause_element:', '                    where_mask = np.ones(len(val), dtype=bool) if parallel_results else net[element]["in_service"].values\n                    if parallel_results and element == cause_element:', 1)), "where-in-service:parallel"),
         V("parallel branch keeps own outage", p, in_function("_update_contingency_results_parallel", lambda s: s.replace('                        where_mask = where_mask & (contingency_results[element]["index"] != cause_index)\n', '                        pass\n', 1)), "where-own-outage"),
         V("cause compares with nan", p, in_function("_update_contingency_results_parallel", replace_once("max_mask = valid & (val > np.nan_to_num(current_max, nan=-np.inf))", "max_mask = valid & (val > current_max)")), "cause-nan-safe"),
         V("unordered pool", p, replace_once("results_list = pool.map(worker_func, tasks)", "results_list = list(pool.imap_unordered(worker_func, tasks))"), "ORDERED"),
